@@ -4,7 +4,6 @@
    reader (Lossy.read_go) is matched by the corresponding routine of the lossless parser. *)
 From V.model Require Import Base Deb822Lex Deb822Parse Grammar Lossy.
 From V.proofs Require Import BaseP Deb822LexP GrammarLexP GrammarParseP LossyP LossyRtP LexInvP.
-Set Default Timeout 60.
 
 (* ------------------------------------------------------------ shapes allowed by the automaton *)
 Definition val_ok (t : str) : Prop := tok_text_ok VALUE t = true.
